@@ -634,6 +634,18 @@ func (hs *clientHandshakeStateTLS13) establishHandshakeKeys() error {
 		// share of the spec may be for another curve, or absent.
 		ecdheKey = hs.keyShareKeys.mlkemEcdhe
 	}
+	for _, ks := range hs.hello.keyShares {
+		// A spec may list several classical key shares: use the key of the
+		// share the server selected.
+		if ks.group != hs.serverHello.serverShare.group {
+			continue
+		}
+		for _, k := range hs.keyShareKeys.extraEcdhe {
+			if k != nil && bytes.Equal(k.PublicKey().Bytes(), ks.data) {
+				ecdheKey = k
+			}
+		}
+	}
 	if ecdheKey == nil {
 		return c.sendAlert(alertInternalError)
 	}
